@@ -108,7 +108,10 @@ async fn run(case: &str) -> String {
     out.join(" | ")
 }
 
-fn exec(case: &str) -> String { rt().block_on(run(case)) }
+fn exec(case: &str) -> String {
+    let _gag = StdoutGag::new();
+    rt().block_on(run(case))
+}
 
 // ------------------------------------------------------------------------------------ generator
 fn gen_log(r: &mut Rng, term: u64, maxlen: u64) -> Vec<u64> {
